@@ -40,16 +40,25 @@ def wrap64 (x : Int) : Int := (x + 2^63) % 2^64 - 2^63
 def maxInt : Int := 2^63 - 1
 def minInt : Int := -(2^63)
 
+/-- Number skips one `+` before calling `strconv.ParseInt` -/
+def skipPlus : List Char → List Char
+  | '+' :: r => r
+  | l => l
+
+/-- the optional sign read by `strconv.ParseInt` -/
+def signSplit : List Char → Bool × List Char
+  | '-' :: r => (true, r)
+  | '+' :: r => (false, r)
+  | l => (false, l)
+
 /-- `strconv.ParseInt` preceded by Number's own skipping of one `+`:
     `none` when there are no digits or the value does not fit int64 -/
 def parseExp (l : List Char) : Option Int :=
-  let l := match l with | '+' :: r => r | _ => l
-  let (neg, ds) := match l with | '-' :: r => (true, r) | '+' :: r => (false, r) | _ => (false, l)
-  let ds := ds.takeWhile Char.isDigit
+  let sd := signSplit (skipPlus l)
+  let ds := sd.2.takeWhile Char.isDigit
   if ds.isEmpty then none else
-  let n : Nat := natOf ds
-  if neg then (if n ≤ 2^63 then some (-(n : Int)) else none)
-  else (if n < 2^63 then some (n : Int) else none)
+  if sd.1 then (if natOf ds ≤ 2^63 then some (-(natOf ds : Int)) else none)
+  else (if natOf ds < 2^63 then some (natOf ds : Int) else none)
 
 def notE (c : Char) : Bool := c != 'e' && c != 'E'
 
@@ -144,10 +153,10 @@ def sigDigits (ip fp : List Char) : List Char × Int :=
 
 def sgn (neg : Bool) (o : List Char) : List Char := if neg then '-' :: o else o
 
-/-- the four print cases of `Number`.  `W = len(num) - start`; `s` is returned on exponent overflow. -/
-def printNum (s : List Char) (neg : Bool) (W : Nat) (m : Mant) : List Char :=
-  let ip := m.ip; let fp := m.fp; let origExp := m.e
-  let (ds, normExp0) := sigDigits ip fp
+/-- the four print cases of `Number` for significant digits `ds` and `normExp0` (`sigDigits`).
+    `W = len(num) - start`; `s` is returned on exponent overflow. -/
+def printCase (s : List Char) (neg : Bool) (W : Nat) (ip fp : List Char) (origExp : Int)
+    (ds : List Char) (normExp0 : Int) : List Char :=
   let n : Int := ds.length
   if (origExp < 0 && (normExp0 < minInt - origExp || normExp0 - n < minInt - origExp)) ||
      (0 < origExp && (maxInt - origExp < normExp0 || maxInt - origExp < normExp0 - n)) then s else
@@ -175,22 +184,23 @@ def printNum (s : List Char) (neg : Bool) (W : Nat) (m : Mant) : List Char :=
       let mm := if ip.isEmpty then (if fp.isEmpty then [] else '.' :: fp) else if fp.isEmpty then ds else ip ++ '.' :: fp
       sgn neg (mm ++ 'e' :: '-' :: decStr origExp.natAbs)
 
+def printNum (s : List Char) (neg : Bool) (W : Nat) (m : Mant) : List Char :=
+  printCase s neg W m.ip m.fp m.e (sigDigits m.ip m.fp).1 (sigDigits m.ip m.fp).2
+
 /-- everything after the exponent has been parsed -/
 def numberCore (s : List Char) (neg signed : Bool) (mant : List Char) (origExp : Int) (prec : Int) :
     List Char :=
-  let (ipart, fo) := splitLastDot mant
-  let hasDot := fo.isSome
-  let fpart := fo.getD []
+  let sp := splitLastDot mant
+  let hasDot := sp.2.isSome
   -- leading zeros are dropped while at least two mantissa bytes remain (`start < end-1`)
-  let dropped := min (ipart.length - (dropZeros ipart).length) (mant.length - 1)
-  let ip := ipart.drop dropped
-  let start := (if signed then 1 else 0) + dropped
-  let fp := dropTrail '0' fpart
+  let dropped := min (sp.1.length - (dropZeros sp.1).length) (mant.length - 1)
+  let ip := sp.1.drop dropped
+  let fp := dropTrail '0' (sp.2.getD [])
   if hasDot && fp.isEmpty && ip.isEmpty then ['0'] else
   if !hasDot && ip == ['0'] then ['0'] else
   let m0 : Mant := { ip := ip, fp := fp, e := origExp }
   let m := if 0 < prec then roundP m0 prec.toNat else m0
-  printNum s neg (s.length - start) m
+  printNum s neg (s.length - ((if signed then 1 else 0) + dropped)) m
 
 /-- `minify.Number(num, prec)` -/
 def number (s : List Char) (prec : Int) : List Char :=
